@@ -19,7 +19,7 @@ from ..recipes import ref as R
 
 LEVEL = "exploration"
 BUDGET_S = {"quick": 75, "thorough": 1500}
-N_RANDOM = {"quick": 250, "thorough": 8000}
+N_RANDOM = {"quick": 1200, "thorough": 30000}
 TOL = 1e-12
 
 
